@@ -97,6 +97,12 @@ func checkC18(ctx *RunCtx) int {
 	rep := NewReport()
 	runSeatChecks(ctx, rep, "C18", []string{"C18"}, ctx.N(60000, 1500000), 0, false)
 	concBatch("C18", ctx.Seed, 180, ctx.N(3000, 100000), rep, ctx.Workers)
+	// as many clients as seats, each taking any seat and leaving it again
+	half := *ctx
+	half.Workers = 4
+	runCases(&half, rep, 184, ctx.N(400, 6000), func(i int, r *rand.Rand, local *Report) {
+		runHoppers("C18", local, ctx.Seed, i, r)
+	})
 	extra := map[string]interface{}{}
 	reports, pairs, out, ok, why := runRaceChild(ctx, "c18race", fmt.Sprint(ctx.Seed), fmt.Sprint(ctx.N(300, 4000)))
 	if !ok {
